@@ -28,7 +28,8 @@ def register(db):
         props=P))
     db.method_table[("TagAttrDict", "update")] = TAD + "update"
     db.add(Contract(name=TAD + "__init__", params=[("self", "AttrList"), ("args", "ArgDicts"), ("kwargs", "ArgDict")], self_class="TagAttrDict",
-                    modifies=["self"], raises=[("TypeError", "hasOtherDs(callDicts(args, kwargs))")],
+                    modifies=["self"], requires=["isANil(self)"], raises=[("TypeError", "hasOtherDs(callDicts(args, kwargs))")],
                     post={"self": "mergeCall(args, kwargs)"}, props=P,
                     note="dict.update(empty, m) == m is the Lean lemma aupdate_nil (imported as L_aupdate_nil)",
                     lemmas=[("L_aupdate_nil", {"args": "args", "kwargs": "kwargs"})]))
+    db.method_table[("TagAttrDict", "__init__")] = TAD + "__init__"
